@@ -191,7 +191,11 @@ func (d *driver) next() M {
 				e["bad"] = "prooflen"
 			}
 		case 3:
-			e["out"] = out + int64(r.Intn(3)) - 1
+			if r.Intn(2) == 0 {
+				e["bad"] = pick(r, []string{"version", "hash33", "hash31", "root33", "proof33"})
+			} else {
+				e["out"] = out + int64(r.Intn(3)) - 1
+			}
 		case 4:
 			e["pos"] = int64(1 + r.Intn(n))
 		case 5:
